@@ -47,10 +47,10 @@ type gpkg struct {
 	name    string // package name = directory ("" dir for main)
 	imports []int
 	files   []string
-	vars    []*gvar // hidden topological order
-	units   [][]int // variables initialised together, in hidden order
-	decl    []int   // unit indices in declaration order
-	ufile   []int   // file of each unit
+	vars    []*gvar      // hidden topological order
+	units   [][]int      // variables initialised together, in hidden order
+	decl    []int        // unit indices in declaration order
+	ufile   []int        // file of each unit
 	merged  map[int]bool // unit is written together with the next unit in declaration order: `var a, b = x, y`
 	items   [][]item
 }
@@ -59,13 +59,27 @@ type item struct {
 	text   string
 	unit   int // >= 0: variable unit (text is the spec without "var ")
 	uses   map[string]bool
-	before int // > 0: must precede the variable unit before-1 in its file (recorded finding)
+	before int  // > 0: must precede the variable unit before-1 in its file (recorded finding)
 	open   bool // first half of `var a, b = x, y`, waiting for the second
 }
 
 var indirectKinds = []string{"func", "chain", "method", "ptrmethod", "methodval", "methodexpr", "funcref"}
 
-func pct(t *rapid.T, label string) int { return rapid.IntRange(0, 99).Draw(t, label) }
+var sevenBits = rapid.SliceOfN(rapid.Bool(), 7, 7)
+
+// pct draws a nearly uniform percentage: rapid's integer generators favour
+// small values (a third of IntRange(0, 99) is below 5), fair bits do not.
+// All bits false (the shrink target) is 0.
+func pct(t *rapid.T, label string) int {
+	k := 0
+	for _, b := range sevenBits.Draw(t, label) {
+		k <<= 1
+		if b {
+			k |= 1
+		}
+	}
+	return k * 100 / 128
+}
 
 type gen struct {
 	t       *rapid.T
@@ -90,7 +104,7 @@ func generate(t *rapid.T, sw switches) *program {
 	case r >= 30:
 		npk = 2
 	}
-	nvars := rapid.IntRange(4, 14).Draw(t, "nvars")
+	nvars := 4 + pct(t, "nvars")*11/100
 	counts := make([]int, npk)
 	for i := range counts {
 		counts[i] = 1
@@ -254,7 +268,15 @@ func (g *gen) drawTerms(p *gpkg) {
 			}
 			eligible = append(eligible, j)
 		}
-		nd := rapid.IntRange(0, 3).Draw(t, "ndeps")
+		nd := 0
+		switch r := pct(t, "ndeps"); {
+		case r >= 85:
+			nd = 3
+		case r >= 55:
+			nd = 2
+		case r >= 20:
+			nd = 1
+		}
 		seen := map[int]bool{}
 		for d := 0; d < nd && len(eligible) > 0; d++ {
 			// prefer recent variables: long chains
@@ -270,7 +292,7 @@ func (g *gen) drawTerms(p *gpkg) {
 			case r < 40:
 				tm.kind = "closure"
 			default:
-				tm.kind = indirectKinds[rapid.IntRange(0, len(indirectKinds)-1).Draw(t, "indirect")]
+				tm.kind = indirectKinds[pct(t, "indirect")*len(indirectKinds)/100]
 			}
 			v.terms = append(v.terms, tm)
 		}
@@ -302,7 +324,7 @@ func (g *gen) drawDeclOrder(p *gpkg) {
 	for i := range order {
 		order[i] = i
 	}
-	moves := rapid.IntRange(0, n).Draw(t, "moves")
+	moves := pct(t, "moves") * (n + 1) / 100
 	for m := 0; m < moves && n > 1; m++ {
 		from := rapid.IntRange(0, n-1).Draw(t, "from")
 		to := rapid.IntRange(0, n-1).Draw(t, "to")
